@@ -125,7 +125,95 @@ def newTickIter (lhsSmaller : Bool) (L : Table κ ν1) (R : Table κ ν2) : List
   else
     R.flatMap fun (k, v2s) => v2s.flatMap fun v2 => (L.fullProbe k).map fun v1 => (k, v1, v2)
 
-/-- `symmetric_hash_join(.., is_new_tick = true)` once both drains are done -/
+/-! ### `NewTickJoinIter` as the state machine it is
+
+One orientation (`next_lhs_smaller`; `next_rhs_smaller` is the same code with the roles of the two
+sides swapped): `νo` = values of the outer (smaller) side, `νi` = values of the probed side.  The
+`Option<Iter>` fields are `Option (List _)` (`some []` = `Some` of an exhausted iterator). -/
+
+structure NTI (κ νo νi : Type) where
+  /-- `outer_iter` -/
+  outer : Option (List (κ × List νo))
+  /-- `current_key` -/
+  key : Option κ
+  /-- `outer_val_iter` -/
+  ovals : Option (List νo)
+  /-- `current_outer_val` -/
+  oval : Option νo
+  /-- `inner_val_iter` -/
+  inner : Option (List νi)
+
+/-- `NewTickJoinIter::new_lhs_smaller` / `new_rhs_smaller` -/
+def NTI.start (t : Table κ νo) : NTI κ νo νi := ⟨some t, none, none, none, none⟩
+
+/-- what one iteration of the `loop` in `next_lhs_smaller` does: `return` or `continue` -/
+inductive NTIRes (κ νo νi : Type) where
+  | ret (s : NTI κ νo νi) (o : Option (κ × νo × νi))
+  | cont (s : NTI κ νo νi)
+
+/-- the body of the `loop` of `next_lhs_smaller` (`probe` = `other_state.full_probe`);
+`unwrap()` of a `None` is modelled as `return None` (unreachable, see `aux_ntiBody`) -/
+def ntiBody (probe : κ → List νi) (s : NTI κ νo νi) : NTIRes κ νo νi :=
+  -- if let Some(iter) = inner_val_iter { if let Some(w) = iter.next() { return Some(..) } inner_val_iter = None }
+  match s.inner with
+  | some (w :: ws) =>
+    match s.key, s.oval with
+    | some k, some v => .ret { s with inner := some ws } (some (k, v, w))
+    | _, _ => .ret s none
+  | _ =>
+    let s1 : NTI κ νo νi := { s with inner := none }
+    -- if let Some(iter) = outer_val_iter { if let Some(v) = iter.next() { current_outer_val = v;
+    --   inner_val_iter = Some(other.full_probe(key)); continue } outer_val_iter = None; current_key = None }
+    match s1.ovals with
+    | some (v :: vs) =>
+      match s1.key with
+      | some k => .cont { s1 with ovals := some vs, oval := some v, inner := some (probe k) }
+      | none => .ret s1 none
+    | ov =>
+      let s2 : NTI κ νo νi := match ov with
+        | some _ => { s1 with ovals := none, key := none }
+        | none => s1
+      -- if let Some(iter) = outer_iter { if let Some((k, vals)) = iter.next() { current_key = k;
+      --   outer_val_iter = Some(vals.iter()); continue } outer_iter = None }
+      match s2.outer with
+      | some ((k, vals) :: rest) => .cont { s2 with outer := some rest, key := some k, ovals := some vals }
+      | some [] => .ret { s2 with outer := none } none
+      | none => .ret s2 none
+
+/-- `Iterator::next` of one orientation: the `loop` with explicit fuel (every `continue` consumes an
+outer value or an outer table entry; `NTI.fuel` is enough) -/
+def ntiNext (probe : κ → List νi) : Nat → NTI κ νo νi → NTI κ νo νi × Option (κ × νo × νi)
+  | 0, s => (s, none)
+  | fuel + 1, s =>
+    match ntiBody probe s with
+    | .ret s' o => (s', o)
+    | .cont s' => ntiNext probe fuel s'
+
+/-- outer values and outer entries still to be consumed -/
+def NTI.measure (s : NTI κ νo νi) : Nat :=
+  (match s.ovals with | some vs => vs.length | none => 0) +
+  (match s.outer with | some es => (es.map fun e => e.2.length + 1).sum | none => 0)
+
+def NTI.fuel (s : NTI κ νo νi) : Nat := s.measure + 1
+
+/-- `pull::iter(NewTickJoinIter)` pulled until `Ended` (at most `n` items) -/
+def ntiCollect (probe : κ → List νi) : Nat → NTI κ νo νi → List (κ × νo × νi)
+  | 0, _ => []
+  | n + 1, s =>
+    match ntiNext probe s.fuel s with
+    | (s', some x) => x :: ntiCollect probe n s'
+    | (_, none) => []
+
+/-- everything `symmetric_hash_join(.., is_new_tick = true)` yields once resolved: the orientation is
+chosen by `len()`, the rhs-outer orientation yields `(k, (v1, v2))` from its `(k, v2, v1)` -/
+def newTickRun (n : Nat) (ls : Half κ ν1 ν2) (rs : Half κ ν2 ν1) : List (κ × ν1 × ν2) :=
+  if ls.len < rs.len then ntiCollect rs.table.fullProbe n (NTI.start ls.table)
+  else (ntiCollect ls.table.fullProbe n (NTI.start rs.table)).map fun x => (x.1, x.2.2, x.2.1)
+
+/-- number of stored values of a table -/
+def Table.size (t : Table κ ν) : Nat := (t.map fun e => e.2.length).sum
+
+/-- `symmetric_hash_join(.., is_new_tick = true)` once both drains are done (denotationally) -/
 def newTickJoin (ls : Half κ ν1 ν2) (rs : Half κ ν2 ν1) : List (κ × ν1 × ν2) :=
   newTickIter (ls.len < rs.len) ls.table rs.table
 
